@@ -121,7 +121,24 @@ pub mod verif;
 
 fn raw_to_parse_error(map: &CodeMap, err: Error, unicode: bool) -> Box<Error> {
     match err.raw() {
-        Ok((message, span)) => Box::new(Error::from_loc(message, map.look_up_span(span), unicode)),
+        Ok((message, span)) => {
+            // Spans computed while re-parsing interpolated text (selectors, media
+            // queries, ...) are offsets into the interpolated string and may fall
+            // inside a multi-byte character of the original source. Widen such a
+            // span to the enclosing character boundaries before looking it up.
+            let file = map.find_file(span.low());
+            let source = file.source();
+            let mut low = (span.low() - file.span.low()) as usize;
+            let mut high = (span.high() - file.span.low()) as usize;
+            while !source.is_char_boundary(low) {
+                low -= 1;
+            }
+            while !source.is_char_boundary(high) {
+                high += 1;
+            }
+            let span = file.span.subspan(low as u64, high as u64);
+            Box::new(Error::from_loc(message, map.look_up_span(span), unicode))
+        }
         Err(err) => Box::new(err),
     }
 }
